@@ -768,6 +768,10 @@ func boundarySources() []source {
 	for _, extra := range []string{"200", "-5", "40000", "3000000000", "100000000000000000000", "-100000000000000000000", "1", "-1", "12345"} {
 		add(source{Type: "string-int", Str: extra})
 	}
+	// zero-padded decimal renderings are still decimal numbers ("010" is ten, "08" is eight)
+	for _, extra := range []string{"010", "0755", "-010", "08", "-08", "007", "00", "0255", "0256", "00032767", "0032768", "0000000000000000000042", "09223372036854775807", "018446744073709551615"} {
+		add(source{Type: "string-int", Str: extra})
+	}
 	// strings: FormatFloat renderings of the float boundary set
 	for _, s := range append([]source{}, out...) {
 		switch s.Type {
